@@ -144,8 +144,8 @@ class FA:
                 break
             val = self.cfg.def_value(d, e.id)
             x = val
-            while isinstance(x, ast.Attribute):
-                x = x.value
+            while isinstance(x, (ast.Attribute, ast.Subscript)):
+                x = x.value  # 'm = masks[i]' / 'xs = self.items': an existing object, not a new one
             if val is None or not isinstance(x, ast.Name):
                 break
             e, at, depth = val, d, depth - 1
